@@ -171,6 +171,7 @@ def try_resume(image, kind, kw, workdir, continue_run=False):
         fresh = (ns.iteration == 0 and not ns.nested_samples) if kind == "std" else (ns.training_samples.samples is None)
         res["s"] = "fresh" if fresh else sampler_digest(ns, kind)
         res["w"] = weights_digest(ns, kind)
+        res["wf"] = getattr(getattr(ns, "_flow_proposal", None), "weights_file", None) if kind == "std" else None
         res["iteration"] = ns.iteration
         res["ok"] = True
     except Exception as e:
@@ -236,6 +237,16 @@ def history_worker(item):
                 errs.append((f"loaded-state-is-neither-previous-nor-new:{name}@{cls_label}", f"crash image '{label}': sampler digest {r['s']} not in {allowed_s} (iteration {r.get('iteration')})"))
             if r["w"] not in allowed_w:
                 errs.append((f"loaded-weights-are-neither-previous-nor-new:{name}@{cls_label}", f"crash image '{label}': weights digest {r['w']} not in {allowed_w}"))
+            if kind == "std" and target == "weights" and r.get("wf"):
+                # naming the recorded weights file explicitly on resume (`weights_path=` and its older
+                # spelling `weights_file=`) is the same request as not naming it: same crash image, same outcome
+                for opt in ("weights_path", "weights_file"):
+                    r2 = try_resume(image, kind, {**kw, opt: r["wf"]}, work)
+                    n += 1
+                    if not r2["ok"]:
+                        errs.append((f"unresumable-with-explicit-{opt}:{name}@{cls_label}", f"resume from crash image '{label}' with {opt}=<recorded file> failed: {r2['err']} (without the option it succeeds)"))
+                    elif (r2["s"], r2["w"]) != (r["s"], r["w"]):
+                        errs.append((f"explicit-{opt}-changes-what-is-loaded:{name}@{cls_label}", f"crash image '{label}': {(r2['s'], r2['w'])} vs {(r['s'], r['w'])}"))
             key = (r["s"], r["w"])
             if key not in classes:
                 classes[key] = label
@@ -422,7 +433,7 @@ def run(ctx):
             ctx.violation(*v)
     ctx.set("distinct_nontrivial", total_classes)
     ctx.set("histories", len(hists))
-    ctx.set("rule", "for each history (checkpoint #k / weights save #k of a real standard or INS run, with and without keeping the previous checkpoint) every crash point of the recorded file-operation log: before each op, after the last, and for a file open for writing every byte prefix on a lattice (0, 1, n/2, n-1, n and every `prefix_step` bytes). Distinct/non-trivial: distinct (loaded sampler state, loaded weights) classes over all images, each additionally continued to completion under the C01/C03 monitors and the C05 oracle. Two-crash histories: from every operation-boundary image of a checkpoint history the run is resumed up to its next checkpoint, whose operation-boundary images are enumerated again; each must load the state before or after that second checkpoint (never a fresh start once a checkpoint had completed)")
+    ctx.set("rule", "for each history (checkpoint #k / weights save #k of a real standard or INS run, with and without keeping the previous checkpoint) every crash point of the recorded file-operation log: before each op, after the last, and for a file open for writing every byte prefix on a lattice (0, 1, n/2, n-1, n and every `prefix_step` bytes). Distinct/non-trivial: distinct (loaded sampler state, loaded weights) classes over all images, each additionally continued to completion under the C01/C03 monitors and the C05 oracle. Two-crash histories: from every operation-boundary image of a checkpoint history the run is resumed up to its next checkpoint, whose operation-boundary images are enumerated again; each must load the state before or after that second checkpoint (never a fresh start once a checkpoint had completed). Weights histories of the standard sampler: every image is also resumed with the recorded weights file named explicitly (weights_path= / weights_file=), which must load exactly what the plain resume loads")
     ctx.set("bounds", dict(prefix_step=step, histories=[h[0] for h in hists]))
     ctx.set("exhaustive", True)
     ctx.assume(
